@@ -1,6 +1,7 @@
 package main
 
 import (
+	"fmt"
 	"go/types"
 	"strings"
 
@@ -125,6 +126,30 @@ func init() {
 		c.res = []Term{{S: app("uf_errors_Unwrap", c.args[0].S), Sort: SIface, T: c.resTypes[0]}}
 		return true
 	})
+
+	reg("slices.Clone", "fresh array holding the same elements (same length); no effect on the source", func(c *callCtx) bool {
+		sl, ok := types.Unalias(c.argVals[0].Type()).Underlying().(*types.Slice)
+		if !ok {
+			return false
+		}
+		x := c.x
+		src := c.args[0]
+		h := x.heapElem(sl.Elem())
+		es := x.ss.sortOf(sl.Elem())
+		heap := x.get(c.st, h).S
+		fresh := x.allocRef(c.n, c.st, "clone_arr")
+		na := x.vc.freshConst("clone_elems", "(Array Int "+es+")")
+		c.n.assume(fmt.Sprintf("(forall ((j Int)) (! (= (select %s j) (select (select %s (s.arr %s)) (+ (s.off %s) j))) :pattern ((select %s j))))", na, heap, src.S, src.S, na))
+		arr := mkIte(app("=", app("s.len", src.S), "0"), app("s.arr", src.S), fresh)
+		off := mkIte(app("=", app("s.len", src.S), "0"), app("s.off", src.S), "0")
+		nh := x.vc.freshConst(shortVar(h)+"_clone", x.varSort(h))
+		c.n.assume(mkEq(nh, mkIte(app("=", app("s.len", src.S), "0"), heap, app("store", heap, fresh, na))))
+		x.set(c.st, h, nh)
+		r := Term{S: app("mk_Slice", arr, off, app("s.len", src.S), app("s.len", src.S)), Sort: SSlice, T: c.resTypes[0]}
+		c.res = []Term{x.nameTerm(c.n, "cloned", r)}
+		return true
+	})
+	specMods["slices.Clone"] = func(p *Program, c *ssa.CallCommon) []string { return nil }
 
 	// --- logging: no effect on program state
 	for _, n := range []string{"log/slog.Debug", "log/slog.Info", "log/slog.Warn", "log/slog.Error", "(*log/slog.Logger).Debug", "(*log/slog.Logger).Info", "(*log/slog.Logger).Warn", "(*log/slog.Logger).Error",
